@@ -881,7 +881,7 @@ def chain_behaviours(run, prop, tier, seed, binary):
 
 GENERIC = {
     # prop: (quick n, thorough n, quick shard cap, thorough cap)
-    "C02": (160, 4000, 300, 1500),
+    "C02": (160, 10000, 300, 1500),
     "C13": (160, 4000, 300, 1500),
     "C14": (120, 3000, 300, 1500),
     "C17": (160, 4000, 300, 1500),
@@ -901,7 +901,7 @@ RULES.update({
     "C15": "for the enumerated squares every subset of the relevant-occupancy mask (4096 max for rooks, 512 for bishops), each also with random blockers OUTSIDE the mask, plus random and full/empty occupancies (quick: 8 random squares complete, the others sampled; thorough: all 64 complete); king/knight/pawn tables for 64 squares x 2 colours; strictly-between sets and alignment predicates for all 64x64 pairs; every event is non-trivial, distinct by (piece, square, chunk)",
     "C18": "for every position of the stream the colour-mirrored position is built through the public API and both bundles (legal moves, check, has_legal, outcome) are logged; same for the left-right flop when there are no castling rights; non-trivial = position with check, e.p., castling rights, or a flop",
     "C19": "capacity: |PseudoLegal| by the spec = length of the safe Vec sink = length of the fixed-capacity MoveList <= 256, on the position stream, on hill-climbing maximisers of the semilegal move count (all-queen armies) and their neighbours; SAN pawn moves/captures to every square incl. the mover's own back rank; in a build with debug assertions, overflow and unsafe-precondition checks AND in an optimised build; non-trivial = position with >= 60 semilegal moves or a boundary text",
-    "C20": "every value of every finite type (8 files, 8 ranks, 64 squares, 6 pieces, 13 cells, 2 colours, 16 rights sets) through index/char/text conversions; from_index(i) for i < 300; from_char for all characters < U+0300 and samples up to U+10FFFF; every 1- and 2-character string over printable ASCII + 4 multi-byte characters through the four FromStr; bitboard algebra on all pairs of subsets of a 6-square universe, unary operations on all subsets of a 12-square universe + random 64-bit sets, bit deposit incl. EMPTY and FULL masks; shift for all squares x 17x17 offsets, add for offsets -70..70; every named constant; each event is one distinct block",
+    "C20": "every value of every finite type (8 files, 8 ranks, 64 squares, 6 pieces, 13 cells, 2 colours, 16 rights sets) through index/char/text conversions; from_index(i) for i < 300; from_char for all characters < U+0300 and samples up to U+10FFFF; every 1- and 2-character string over printable ASCII + 4 multi-byte characters through the four FromStr; bitboard algebra on all pairs of subsets of a 6-square universe, unary operations on all subsets of a 12-square universe + random 64-bit sets, bit deposit incl. EMPTY and FULL masks; shift for all squares x 41x41 offsets (+-20) and 68 larger offsets up to the extremes of isize, add for offsets -70..70; Move/MoveKind/RawBoard value-level API (notes only); every named constant; each event is one distinct block",
     "C02": "random chain sessions (push of Move / uci::Move / Uci(&str) / san::Move / San(&str): every kind of legal move, pseudo-legal-illegal moves, well-formed non-semilegal moves, the null move, mutated and garbage text; pops, outcome operations); after EVERY call the whole chain observation incl. re-validation of the current board is logged; non-trivial = each distinct (position, move-like value) pushed",
     "C13": "same sessions; non-trivial = refused pushes, pushes of special-kind moves, pops, equality comparisons (rebuilt chain + 6 perturbed variants); distinct by (session start, op index)",
     "C14": "shuffle-biased sessions (moves that undo the previous own move) from small endgames and castling/e.p. starts with clocks near 100/150; calc_outcome and set_auto_outcome under all three filters, a spy Repeat wrapping HashRepeat records count(); non-trivial = outcome not none or repetition count >= 2",
